@@ -170,6 +170,142 @@ def uncplx(p):
     return complex(p[0], p[1])
 
 
+# ==== BEGIN diagram-level tie of the contraction code (model coq/theories/TTNDO/Contr.v) ==========================
+# For every explored build case: the density-operator network is the store program TTNDO/Sym.from_ttns_ops (already tied
+# exactly to the implementation's network by the build comparison above: node records, leg permutations, raw shapes,
+# tensor contents); a random operator network over the same tree, with its OWN child order and leg shuffles, is built by
+# add_root / add_child_to_parent on a real TTNO (wmodel.Driver) and by the same op list in the model
+# (Blocks.store_at: disjoint wires and atoms).  Kernel-checked per instance (vm_compute): the hypothesis checkers
+# ttndo_wfb / ttndo_wf3b of the universal theorems C16_trace_closed / C16_expectation_closed and the result checkers
+# ttndo_trace_ok / ttndo_expect_ok.  Value-level tie: the einsum over the atoms of the model's closed diagrams (atoms =
+# the network's actual stored arrays, glued wires identified) equals what the library's trace() /
+# ttno_expectation_value() return, to 1e-9 relative.
+from props.c02 import gen_build_on          # noqa: E402
+from props.c04 import eval_closed           # noqa: E402
+
+CONTR_OOFF, CONTR_OAOFF = 1000, 100         # wire / atom offsets of the operator store
+CONTR_IMPORTS = ("From Coq Require Import List Arith. From PTN Require Import TTN.Store Contr.Blocks TTNDO.Contr. "
+                 "From PTN Require Tree.RTree TTNDO.Sym. Import ListNotations.")
+
+
+class _NodeIndexIds:
+    """identifier map of the operator store: the node named names[i] is the natural number i (= reverse_ket_id on codes)"""
+
+    def __init__(self, names):
+        self.r = list(names)
+        self.d = {nm: i for i, nm in enumerate(names)}
+
+    def __call__(self, s):
+        return self.d[s]
+
+
+def _coq_rtree_q(t):
+    return f"(RTree.RNode {coq_nat(t[0])} [" + "; ".join(_coq_rtree_q(c) for c in t[1]) + "])"
+
+
+def contr_impl(case, ref, ttndo):
+    """implementation side: a random TTNO over the state's tree (independent child order), the library's numbers, the
+    stored arrays (atoms) of both networks.  Nothing here touches `ttndo` itself (raw arrays are copied first, the
+    contractions run on deep copies)."""
+    names = case["names"]
+    n = len(names)
+    rng = random.Random(case["seed"] + 7919)
+    dims = [int(ref.nodes[nm].open_dimension()) for nm in names]
+    bond = {i: rng.choice([1, 2, 2, 3]) for i in range(1, n)}
+    ren = {f"n{i}": names[i] for i in range(n)}
+    ops = []
+    for o in gen_build_on(rng, case["parents"], [[d, d] for d in dims], bond):
+        ops.append([o[0], ren[o[1]], o[2]] if o[0] == "add_root" else [o[0], ren[o[1]], o[2], o[3], ren[o[4]], o[5]])
+    drv = wmodel.Driver(ttn_cls=util.TTNO, nprs=np.random.RandomState((case["seed"] + 13) % (2 ** 31)))
+    for o in ops:
+        ok, err = drv.apply(o)
+        if not ok:
+            raise RuntimeError(f"operator build failed: {o}: {err}")
+    out = {"oops": ops, "osnap": wmodel.snapshot(drv.ttn), "oatoms": [np.array(a) for a in drv.atoms],
+           "datoms": [np.array(ttndo._tensors.data[nid]) for nid in ttndo.nodes],
+           "child_order_differs": any(list(drv.ttn.nodes[nm].children) != list(ref.nodes[nm].children) for nm in names)}
+    psi = util.dense_vec(ref, list(names))
+    O = util.dense_ttno(drv.ttn, list(names))
+    out["dense_expect"] = cplx(np.vdot(psi, O @ psi))
+    out["scale"] = float(abs(np.vdot(psi, psi)) * max(1.0, np.linalg.norm(O, 2)))
+    for key, f in (("trace", lambda: copy.deepcopy(ttndo).trace()),
+                   ("expect", lambda: copy.deepcopy(ttndo).ttno_expectation_value(copy.deepcopy(drv.ttn)))):
+        try:
+            out[key] = cplx(f())
+        except Exception as e:  # noqa
+            out[key + "_exc"] = f"{type(e).__name__}: {e}"
+    return out
+
+
+def contr_expr(case, ob):
+    """the Coq expression evaluated for one build case"""
+    idm = _NodeIndexIds(case["names"])
+    ol = coq_list([("(" + wmodel.coq_op(o, idm) + ")") for o in ob["contr"]["oops"]])
+    args = f"{coq_fun(ob['bond'])} {coq_fun(ob['phys'])} {coq_nat(case['k'])} {_coq_rtree_q(ob['rtree'])}"
+    return f"ttndo_case code_maps (Sym.from_ttns_ops {args}) {ol} {coq_nat(CONTR_OOFF)} {coq_nat(CONTR_OAOFF)}"
+
+
+def contr_compare(prop, case, ob, mo):
+    """instance obligations + value-level tie for one build case; None or a message"""
+    co, cm = ob.get("contr"), mo.get("contr")
+    if co is None or cm is None:
+        return None
+    outside = case.get("variant") == "suffix"
+    # Coq prints left-nested pairs flat: the five components of `observe` come first
+    obs_o, flags, sums = tuple(cm[:5]), cm[5], cm[6]
+    idm = _NodeIndexIds(case["names"])
+    d = wmodel.compare_snapshot(co["osnap"], wmodel.model_obs_to_py(obs_o, idm))
+    if d:
+        return "operator store model: " + d
+    names4 = ("ttndo_wfb", "ttndo_trace_ok", "ttndo_wf3b", "ttndo_expect_ok")
+    prop._inst[0] += 4
+    prop._inst[1] += sum(1 for f in flags if f is True)
+    bad = [nm for nm, f in zip(names4, flags) if f is not True]
+    if bad:
+        prop._contr_fail.append(f"seed {case['seed']} tree {case['parents']} k={case['k']}: {', '.join(bad)} = false")
+        return f"model: per-instance checker(s) {bad} evaluate to false (hypotheses of C16_trace_closed / C16_expectation_closed, expected closed diagram)"
+    tables = {a: (co["datoms"][a], list(ws)) for a, ws in mo["store"][4]}
+    tables.update({a: (co["oatoms"][a - CONTR_OAOFF], list(ws)) for a, ws in obs_o[4]})
+    for what, summ, key in (("trace()", sums[0], "trace"), ("ttno_expectation_value()", sums[1], "expect")):
+        if key + "_exc" in co:
+            return None if outside else f"{what} raised {co[key + '_exc']} where the model program has a closed diagram"
+        summ = unsome(summ)
+        if summ is None:
+            return f"model: the program for {what} has no value on this network"
+        val = eval_closed(summ, tables)
+        lib_v = uncplx(co[key])
+        prop._stats["contr-value-ties"] += 1
+        if val is not None and abs(val - lib_v) > 1e-9 * max(1.0, abs(val)):
+            if outside:
+                return None
+            return (f"{what} = {lib_v} but the model's closed diagram evaluates to {val} on the network's own tensors "
+                    f"(tree {case['parents']}, k={case['k']}, operator child order differs: {co['child_order_differs']})")
+    return None
+
+
+def contr_oracle(prop, case, ob):
+    """independent dense references for the two numbers of the block (random operator with its own child order)"""
+    co = ob.get("contr")
+    if co is None:
+        return None
+    outside = case.get("variant") == "suffix"
+    msg = None
+    nrm = uncplx(ob["norm2"])
+    for key in ("trace", "expect"):
+        if key + "_exc" in co:
+            msg = f"{key} on names {case['names']}: raised {co[key + '_exc']}"
+            break
+    if msg is None and not prop._close(uncplx(co["trace"]), nrm, abs(nrm)):
+        msg = f"trace() = {uncplx(co['trace'])} but <psi|psi> = {nrm} (tree {case['parents']}, k={case['k']})"
+    if msg is None and not prop._close(uncplx(co["expect"]), uncplx(co["dense_expect"]), co["scale"]):
+        msg = (f"ttno_expectation_value (operator with its own child order) = {uncplx(co['expect'])} but <psi|O|psi> = "
+               f"{uncplx(co['dense_expect'])} (tree {case['parents']}, k={case['k']})")
+    if msg is None:
+        return None
+    return prop._suffix_gate(case, msg) if outside else msg
+# ==== END diagram-level tie of the contraction code ==================================================================
+
+
 class C16(Prop):
     id = "C16"
     title = "density-operator network from a pure state"
@@ -178,7 +314,7 @@ class C16(Prop):
             "trees with 6-8 nodes, each with root bond dimension k in {1,2,3} (larger trees: one random k), physical dimensions in {1,2,3}, bond dimensions in {1,2,3}, "
             "random complex unnormalised tensors with shuffled legs, plain / tricky node names (bra suffix inside a name, underscores; "
             "a separate variant with the ket suffix inside a name, outside the stated precondition). Per setup one case each for: build "
-            "(structure), trace, TTNO expectation (non-Hermitian Hamiltonian with coefficients), tensor products on 0,1,...,N sites "
+            "(structure; plus trace and expectation value of a random operator network with its own child order and leg shuffles, for the diagram-level tie), trace, TTNO expectation (non-Hermitian Hamiltonian with coefficients), tensor products on 0,1,...,N sites "
             "(random ordered subsets, non-Hermitian factors); plus identifier-string cases. non-trivial = at least 2 nodes or an "
             "operator case; distinct by case content")
     clauses = [
@@ -192,14 +328,32 @@ class C16(Prop):
         ("F", "tensor_product_expectation_value control flow: repaired flags => every factor applied exactly once to its ket node, empty product "
               "takes the trace branch (C16_tp_expectation_fixed); defect flags => only the last factor / scalar-product branch "
               "(C16_tp_expectation_defects, C16_tp_expectation_refuted)"),
+        ("F", "the contraction code of ttndo_contractions.py at the diagram level (model TTNDO/Contr.v: linearise + ket filter, the loop over the "
+              "contraction order with its dictionary, bra node through ket_to_bra_id, operator node through reverse_ket_id, contract_any_nodes / "
+              "contract_any_node_environment_but_one with id_trafo, _contract_ttno_root incl. the single-site branch, _contract_final_block and [0]): "
+              "for every tree, every child order of the bra side and of the operator and every dimension assignment (hence every root bond dimension) "
+              "trace_ttndo and ttndo_ttno_expectation_value succeed and return the closed network -- no open axis, atoms = root atom + all ket/bra "
+              "(+ operator) atoms, bound wires = the root's open wire + every edge wire, glued pairs exactly (ket open m, bra open m) resp. "
+              "(ket open m, operator input m), (operator output m, bra open m); no conjugation (C16_trace_closed, C16_expectation_closed, "
+              "C16_contraction_loop, C16_contraction_order_store, C16_bra_to_ket_ignore_id_trafo, C16_cache_view, C16_code_maps)"),
         ("I", "per explored build case (vm_compute, checker proved sound: C16_store_check_sound): the store program of from_ttns is accepted "
               "step by step by the Layer-W model TTN/Store.v and leaves exactly the records of the direct description; child leg 0 and "
               "the parent's leg are the same wire"),
-        ("V", "trace() = <psi|psi>, TTNO expectation = <psi|H|psi>, tensor-product expectation = <psi|(x)O|psi>: independent dense numpy oracle "
-              "(not a theorem: the contraction code of ttndo_contractions.py is not modelled)"),
+        ("I", "per explored build case (vm_compute; checkers proved sound: C16_wfb_trace_closed, C16_wf3b_expectation_closed, C16_trace_ok_sound, "
+              "C16_expect_ok_sound): the network built by the store program of from_ttns and a random operator network with its own child order satisfy "
+              "the hypotheses ttndo_wfb / ttndo_wf3b of the two diagram theorems, and the diagrams the two programs return are the expected ones "
+              "with every atom and every bound wire exactly once (ttndo_trace_ok / ttndo_expect_ok). That from_ttns satisfies the hypotheses for "
+              "EVERY tree is not proved (per instance only)"),
+        ("V", "value level: bra tensor = conj(ket tensor), root = eye(k), padded slices zero (exact, every build case); the einsum of the model's closed "
+              "diagrams over the network's own stored arrays equals trace() / ttno_expectation_value() to 1e-9 relative on every build case; "
+              "trace() = <psi|psi>, TTNO expectation = <psi|H|psi> (also for an operator network with its own child order), tensor-product expectation "
+              "= <psi|(x)O|psi> against an independent dense numpy oracle. 'trace = <psi|psi>' as one theorem needs diagram theorem + these value facts "
+              "+ the semantics of einsum; that composition is not a Coq theorem"),
     ]
     trusted_base = ["NumPy eye/pad/reshape/conj entry formulas (validated exactly on every build case: root = eye(k), padded slices, bra = conj(ket))",
-                    "dense references: util.dense_vec / dense_tp / dense_ham (einsum, Kronecker products), tolerance 1e-9 relative to the operator scale"]
+                    "dense references: util.dense_vec / dense_tp / dense_ham / dense_ttno (einsum, Kronecker products), tolerance 1e-9 relative to the operator scale",
+                    "NumPy tensordot / transpose / matmul / [0] on a length-1 axis implement the diagram operations of TTNDO/Contr.v (validated per build case: "
+                    "einsum of the model diagram = library value); ttndo[id] is modelled by the logical (transposed) view, as in Contr/Blocks.v"]
     assumptions = ["root bond dimension k >= 1 (positivity_check rejects others)",
                    "no node name contains the ket suffix and the root identifier contains neither suffix: the code filters ket nodes with "
                    "re.match('.*'+ket_suffix, id), which also accepts e.g. the bra image of a node named 'a_ket' (reported; cases of this "
@@ -210,6 +364,7 @@ class C16(Prop):
         self._known_all = {k["id"]: k.get("status") for k in lib.load_known() if k.get("property") == "C16"}
         self._stats = Counter()
         self._inst = [0, 0]       # per-instance kernel-checked obligations: store_check / wires_check = true
+        self._contr_fail = []     # [contr] failed per-instance checkers of the contraction block
 
     # ---------------------------------------------------------------------------------------
     def _setups(self, ctx, rng, stream, budget_scale):
@@ -390,6 +545,8 @@ class C16(Prop):
                 ob["order"] = f"{type(e).__name__}: {e}"
             ob["idmaps"] = [[ttndo.ket_id(nm), ttndo.bra_id(nm), ttndo.reverse_ket_id(nm + KSUF), ttndo.ket_to_bra_id(nm + KSUF),
                              ttndo.reverse_bra_id(nm + BSUF), ttndo.bra_to_ket_id(nm + BSUF)] for nm in names]
+            if content and case.get("contr", True):      # [contr] diagram-level tie of the contraction code
+                ob["contr"] = contr_impl(case, ref, ttndo)
             return ob
         if op == "trace":
             ob["value"] = cplx(ttndo.trace())
@@ -480,6 +637,12 @@ class C16(Prop):
                 exprs.append("[" + "; ".join(rows) + "]")
                 where.append((i, "ids"))
         vals = coq_eval(ctx, IMPORTS, exprs, shard=60, scope="nat_scope")
+        # [contr] the contraction programs and their checkers, one expression per build case (own imports: Contr/Closed.v
+        # and Tree/RTree.v both define `rid`)
+        cidx = [i for i, (c, ob) in enumerate(zip(cases, obs)) if isinstance(ob, dict) and "contr" in ob]
+        cvals = coq_eval(ctx, CONTR_IMPORTS, [contr_expr(cases[i], obs[i]) for i in cidx], shard=12, scope="nat_scope")
+        where = where + [(i, "contr") for i in cidx]
+        vals = list(vals) + list(cvals)
         out = [None] * len(cases)
         for (i, key), v in zip(where, vals):
             if out[i] is None:
@@ -563,7 +726,7 @@ class C16(Prop):
                 want = [name + KSUF, name + BSUF, name, name + BSUF, name, name + KSUF]
                 if ob["idmaps"][i] != want:
                     return f"identifier maps for {name!r}: impl {ob['idmaps'][i]} expected {want}"
-            return None
+            return contr_compare(self, case, ob, mo)      # [contr]
         if op == "tp":
             table = {v: c for c, v in enumerate(self._name_table(case)) if v is not None}
             ff0, ff1, tt = mo["tp"]        # Coq prints ((a, b), (c, d)) as (a, b, (c, d))
@@ -602,7 +765,7 @@ class C16(Prop):
         if op in ("ids", "build", "reject"):
             if "exception" in ob:
                 return f"{op}: raised {ob['exception']}"
-            return None
+            return contr_oracle(self, case, ob) if op == "build" else None      # [contr]
         outside = case.get("variant") == "suffix"
         if "exception" in ob:
             msg = f"{op} on names {case['names']}: raised {ob['exception']}"
@@ -657,8 +820,8 @@ class C16(Prop):
     def extra_obligations(self, ctx):
         """store_check and wires_check evaluated by vm_compute for every explored build case (soundness: C16_store_check_sound)"""
         total, ok = self._inst
-        fails = [] if ok == total else [f"{total - ok} of {total} per-instance store checks evaluated to false"]
-        return total, ok, fails
+        fails = [] if ok == total else [f"{total - ok} of {total} per-instance checks (store_check / wires_check / contraction checkers) evaluated to false"]
+        return total, ok, fails + self._contr_fail[:5]      # [contr]
 
     def sample_repr(self, case):
         return case
